@@ -578,6 +578,8 @@ def gen_chain(ctx, rng, cuqi, state, impl, tk, md, epsc, warm, cases, inners, n_
     d = dim_of(spec)
     if warm and impl == "exp":
         n_tr = 3
+    if tk == "quartic":
+        n_tr = 1      # the second start would be a rounded 53-bit float: the cubic map then produces 10^4-bit rationals
     eps = rng.choice(EPS_CLASSES[epsc])
     x0 = gen_start(rng, spec)
     scripts = []
@@ -654,6 +656,8 @@ def tie_cases(ctx, rng, cuqi, state, cases):
 
 def run(ctx):
     import cuqi
+    import common
+    common.SHARD = 40      # local work-around: a case costs 0.1-1 s of vm_compute here, so 400-case shards would serialise the run
     rng = ctx.rng
     cases, inners = [], []
     state = {"leg_guard": detect_leg_guard(cuqi), "leg_eps_replaced": 0, "skipped_float_overflow": 0}
@@ -676,7 +680,8 @@ def run(ctx):
                     gen_chain(ctx, rng, cuqi, state, impl, tk, md, "mid", rng.choice([3, 5, 10, 12]), cases, inners)
     tie_cases(ctx, rng, cuqi, state, cases)
     # how many of the scripted transitions were decided with all margins (sample)
-    sample = rng.sample(inners, min(len(inners), 60))
+    small = [t for t in inners if len(t) < 2500]
+    sample = rng.sample(small, min(len(small), 40))
     cases.append(Case(expr="(%d <=? length (filter check_conclusive %s))%%nat" % (int(0.8 * len(sample)), clist(sample)),
                       meta={"conclusive_sample": len(sample)}, cell="meta/conclusive>=80%", kind="DECISION"))
     # exact kernel enumeration of the real samplers on a few orbits (independent oracle)
